@@ -94,3 +94,32 @@ CLAIMS.update({
             "names of ≤ 3 symbols plus random unicode/long/separator/case names in several sessions, save/load traces, end-to-end builds.",
             TB + "sha256 injectivity is a hypothesis; pickle fidelity trusted; case-sensitive file system.", TECH),
 })
+
+CLAIMS.update({
+    "C06": ("Lean 4 theorems over the engine model for every project, configuration, world and accepted schedule: C06_skip (a user-skipped task and "
+            "all its transitive dependants never run, their only report is SKIP), C06_select (the same for every task outside the -k/-m closure, both "
+            "options together included), C06_only (SKIP only for blocked tasks), C06_all_reported, C06_exit, C06_unchanged_no_propagate, "
+            "C06_force_dry, C06_needs, C06_eligible_closed; the statements for after-targets without products are refuted from the F1 witness "
+            "and proved for targets with a product. Tie: generated projects with skip/skipif/persist/user markers × -k/-m expressions × force × dry × "
+            "fresh or partially built state, built through pytask.build and replayed in the model; dag pipeline and hook order from the translator.",
+            TB + "The -k/-m expression language itself is C16 (expressions are resolved to task sets by an independent evaluator). Known finding F1.", TECH),
+    "C14": ("Lean 4 theorems over the capture model (fd table + append-only files, CaptureManager and the capture classes transcribed from capture.py, "
+            "op sequence of a whole build): C14_fd, C14_sys, C14_tee, C14_no, C14_iso, C14_complete, C14_empty for every task order, window and "
+            "payload. Tie: real builds in subprocesses with pipes on fds 1/2, tasks writing tokenised unicode payloads via print / sys.stderr.write / "
+            "os.write / child processes under the four capture methods; sections and pipe bytes compared with the model; token-accounting oracle.",
+            TB + "PARTIAL in the brief's sense: the OS is modelled (POSIX dup/dup2/open with shared offsets, GC closing unreachable files); the model "
+                 "cannot exhibit kernel pipe semantics, output emitted after the task returned, unflushed user buffers, invalid UTF-8, rich rendering.", TECH),
+    "C15": ("Lean 4 theorems over the capture/process model: C15_streams_partial / C15_streams_full (fds 0-2 and sys.std* after a build), the "
+            "open-descriptor count per build, C15_misc (warning filters, pdb.set_trace, report class variables, registries restored), "
+            "C15_config_failure, C15_samebuilds_partial; C15_samebuilds_full is refuted from the F7 witnesses. Tie: sequences of 2-8 builds in one "
+            "process (success, failures in each phase, dry run, every capture method) with fstat / /proc/self/fd / stream identity / registry "
+            "snapshots before and after each build, outcome vectors vs fresh-process builds; unconfigure implementations from the translator.",
+            TB + "PARTIAL in the brief's sense: GC timing and the fd budget of imported libraries are runtime behaviour (the model predicts growth per "
+                 "build). Known finding F7 (task modules cached in sys.modules: @task tasks vanish / half-initialised modules from the 2nd build on).", TECH),
+    "C17": ("Lean 4 theorems over the engine model: C17_persist / C17_persist_build (PERSISTENCE, body not run, no file touched, neighbours recorded — "
+            "for any configuration including force), C17_quiet / C17_quiet_build (the following build reports SKIP_UNCHANGED), C17_missing, "
+            "C17_nochange (with a missing neighbour or nothing changed the protocol equals that of the unmarked task), C17_order (over the extracted "
+            "hook orders), C17_skip_wins, C17_failed_wins. Tie: any subset of tasks persist-marked, histories of edits to deps/source/products/"
+            "deleted products × skip, selection, force, failing upstream, dry run; harness ground truth; replayed in the model.",
+            TB + "networkx, pluggy, SQLite trusted.", TECH),
+})
